@@ -5,17 +5,11 @@
  "properties": {"C04": "contract", "C05": "contract", "C19": "safety"},
  "mode": "harness",
  "link_repo": ["type.c"],
- "loop_contracts": {"inttype": [{"loop_id": "0",
-     "assigns": "i, __CPROVER_object_whole(end)",
-     "invariants": "i <= g_len && end[g_len] == 0 && (0 < g_len ==> (0 < i ? (unsigned char)end[0] == (g_e0 >= 'A' && g_e0 <= 'Z' ? g_e0 + 32 : g_e0) : (unsigned char)end[0] == g_e0)) && (1 < g_len ==> (1 < i ? (unsigned char)end[1] == (g_e1 >= 'A' && g_e1 <= 'Z' ? g_e1 + 32 : g_e1) : (unsigned char)end[1] == g_e1)) && (2 < g_len ==> (2 < i ? (unsigned char)end[2] == (g_e2 >= 'A' && g_e2 <= 'Z' ? g_e2 + 32 : g_e2) : (unsigned char)end[2] == g_e2)) && (3 < g_len ==> (3 < i ? (unsigned char)end[3] == (g_e3 >= 'A' && g_e3 <= 'Z' ? g_e3 + 32 : g_e3) : (unsigned char)end[3] == g_e3))",
-     "decreases": "g_len - i",
-     "symbol_map": "i,inttype::1::i;end,inttype::end;g_len,g_len;g_e0,g_e0;g_e1,g_e1;g_e2,g_e2;g_e3,g_e3"}]},
- "loops_expected": {"inttype": 3},
- "kind": "proof-const-unwind", "unwind": 8,
+ "kind": "bounded", "bound": "the text after the digits has at most 5 characters (every integer-suffix has at most 3; longer ones are all invalid)",
+ "unwind": 8,
  "timeout": 200,
- "expects": ["assertion_verif", "assertion_repo", "loop_invariant_step", "loop_decreases"],
- "assumes": ["the case-folding loop over the suffix is unbounded and handled by a loop contract (only the first four characters matter: an integer-suffix has at most three); the two table loops have constant bounds (6 entries)",
-             "harness mode (no DFCC): inttype keeps its table in a static local, which DFCC would havoc",
+ "expects": ["assertion_verif", "assertion_repo"],
+ "assumes": ["harness mode with a length bound instead of a loop contract for the case-folding loop: inttype keeps its table in a static local, and both goto-instrument --dfcc and the non-DFCC --apply-loop-contracts re-initialise statics nondeterministically (probed: the table pointers become invalid), so no loop contract can be applied to this function with CBMC 6.11",
              "val is the value of the digit sequence (strtoull in primaryexpr; its saturation at ULLONG_MAX is NOT checked there -- see report), end points at the first character after the digits inside the writable NUL-terminated token",
              "int is 32 bits, long and long long are 64 bits on every cproc target: the sizes are those of type.c's real type objects (linked), asserted in PRE"]
 }
@@ -33,7 +27,7 @@
  */
 extern int g_no_error;
 size_t g_len;                    /* strlen(end) */
-u8 g_e0, g_e1, g_e2, g_e3;       /* the first characters at end as written (case preserved); 0 where none exist */
+u8 g_e0, g_e1, g_e2, g_e3, g_e4; /* the characters at end as written (case preserved); 0 where none exist */
 
 static struct type *
 il_obj(enum spec_ilt t)
@@ -48,9 +42,10 @@ il_obj(enum spec_ilt t)
 
 #define PRE(X) \
 	X(end != 0) \
-	X(g_len < 0x7fffffff && end[g_len] == 0) \
+	X(g_len <= 5 && end[g_len] == 0) \
 	X((g_len > 0 ? (u8)end[0] == g_e0 && g_e0 != 0 : g_e0 == 0) && (g_len > 1 ? (u8)end[1] == g_e1 && g_e1 != 0 : g_e1 == 0)) \
 	X((g_len > 2 ? (u8)end[2] == g_e2 && g_e2 != 0 : g_e2 == 0) && (g_len > 3 ? (u8)end[3] == g_e3 && g_e3 != 0 : g_e3 == 0)) \
+	X((g_len > 4 ? (u8)end[4] == g_e4 && g_e4 != 0 : g_e4 == 0)) \
 	X(typeint.size == 4 && typeuint.size == 4 && typelong.size == 8 && typeulong.size == 8 && typellong.size == 8 && typeullong.size == 8) \
 	X(typeint.u.basic.issigned && !typeuint.u.basic.issigned && typelong.u.basic.issigned && !typeulong.u.basic.issigned) \
 	X(typellong.u.basic.issigned && !typeullong.u.basic.issigned)
@@ -75,31 +70,31 @@ harness(void)
 {
 	IN(u64, in_val);
 	IN(bool, in_decimal);
-	IN(size_t, in_len);
+	IN(unsigned, in_len);
 	IN(u8, in_e0);
 	IN(u8, in_e1);
 	IN(u8, in_e2);
 	IN(u8, in_e3);
+	IN(u8, in_e4);
 	unsigned long long val = in_val;
 	bool decimal = in_decimal;
 	char *end;
 
-	__CPROVER_assume(in_len < 0x7fffffff);
-	end = malloc(in_len + 1);          /* characters after the fourth: arbitrary (CBMC) */
+	__CPROVER_assume(in_len <= 5);
+	end = malloc(in_len + 1);
 	__CPROVER_assume(end != 0);
-#ifdef VERIF_REPLAY
-	memset(end, 'x', in_len);
-#endif
 	if (in_len > 0) end[0] = in_e0;
 	if (in_len > 1) end[1] = in_e1;
 	if (in_len > 2) end[2] = in_e2;
 	if (in_len > 3) end[3] = in_e3;
+	if (in_len > 4) end[4] = in_e4;
 	end[in_len] = 0;
 	g_len = in_len;
 	g_e0 = in_len > 0 ? in_e0 : 0;
 	g_e1 = in_len > 1 ? in_e1 : 0;
 	g_e2 = in_len > 2 ? in_e2 : 0;
 	g_e3 = in_len > 3 ? in_e3 : 0;
+	g_e4 = in_len > 4 ? in_e4 : 0;
 	/* a well-formed constant that has a type must not be diagnosed */
 	g_no_error = SUF != SPEC_SUF_INVALID && EXPECT != SPEC_IL_NONE;
 	HCALLR(struct type *, PRE, POST, inttype(val, decimal, end));
